@@ -31,6 +31,8 @@ func checkC07(c *Check) {
 	ruleReleaseAfterUse(c, p, "R07.6")
 	rfns := readerSideFuncs(p)
 	ruleErrorsNotAbsorbed(c, p, "R07.7", rfns, errAbsorbExempt)
+	ruleWindowRetention(c, p, "R07.8")
+	c.RuleDoc["R07.8"] = "the rolling dictionary is trimmed to the window before each append (its length is bounded by window + block size)"
 }
 
 // readerSideFuncs: the functions of the reading path whose error results decide
